@@ -281,3 +281,38 @@ Theorem C03_cell_map_order_free : forall G M1 M2,
   forall n, lookup (saved_cells G M1) n = lookup (saved_cells G M2) n.
 Proof. exact cell_map_order_free. Qed.
 Print Assumptions C03_cell_map_order_free.
+
+(* ---- the document a LOADED model writes, as a LIST (Proofs/C03Resave.v): the
+   document it was read from minus cycles / cell_map / excel_hash (so the user's
+   keys and 'filename', in their old order), then cycles, excel_hash, cell_map.
+   No condition beyond a successful load of a document with a file name. *)
+Theorem C03_loaded_doc_shape : forall G cdeps csem rsem f M' v,
+  from_text G cdeps csem rsem f = Ok M' -> d_get f k_filename = Some (TV v) ->
+  fst (to_text G M') =
+    d_del (d_del (d_del f k_cycles) k_cells) k_hash ++
+    [(k_cycles, TV (pm_cycles M')); (k_hash, TV (pm_hash M')); (k_cells, TCells (saved_cells G M'))].
+Proof. exact loaded_doc_shape. Qed.
+Print Assumptions C03_loaded_doc_shape.
+
+(* PARTIAL (C03_idempotent, list level): save . load . save written out in terms
+   of the ORIGINAL model — key order included.  Missing: no_eq_text /
+   code_nonblank, as for C03_idempotent_partial. *)
+Theorem C03_idempotent_doc_partial : forall G cdeps csem rsem M,
+  pm_ok G cdeps M -> wf (pm_wb M) -> code_nonblank csem rsem ->
+  Inv (pm_wb M) (pm_sem csem rsem M) (pm_state M) -> no_eq_text M ->
+  exists M', roundtrip_pkl G cdeps csem rsem M = Ok M' /\
+    fst (to_text G M') =
+      d_del (d_del (d_del (fst (to_text G M)) k_cycles) k_cells) k_hash ++
+      [(k_cycles, TV (pm_cycles M)); (k_hash, TV (pm_hash M)); (k_cells, TCells (saved_cells G M))].
+Proof. exact idempotent_doc. Qed.
+Print Assumptions C03_idempotent_doc_partial.
+
+(* "same content for every key" (C03_idempotent_partial) cannot be strengthened
+   to "same document": even with extra_data = None the save of the loaded model
+   has another key order than the original's (the file name moves to the front) *)
+Theorem C03_idempotent_order_needed : exists G cdeps csem rsem M M',
+  pm_extra M = None /\ roundtrip_pkl G cdeps csem rsem M = Ok M' /\
+  map fst (fst (to_text G M)) = [k_cycles; k_hash; k_cells; k_filename] /\
+  map fst (fst (to_text G M')) = [k_filename; k_cycles; k_hash; k_cells].
+Proof. exact idempotent_order_needed. Qed.
+Print Assumptions C03_idempotent_order_needed.
